@@ -398,6 +398,14 @@ theorem invA_step (c : Cfg) (hc : c.fix13 = true) (s : St) (e : Ev) (h : InvA s)
     · exact invA_onData c hc s p r h0
     · exact h0
   | appSet x v => exact invA_writeVal c s x v none h0
+  | appSetWorker x v =>
+    simp only [step, appSetWorker]
+    split <;> exact ⟨h1, h2, h3, h4, h5, h6⟩
+  | handOff =>
+    simp only [step, handOff]
+    split
+    · exact h0
+    · exact invA_publish c _ _ _ none ⟨h1, h2, h3, h4, h5, h6⟩
   | timerFire p =>
     simp only [step]; split
     · exact invA_sendEvents s p h0
@@ -686,6 +694,17 @@ theorem rel_step (c : Cfg) (s : St) (e : Ev) (h1 : ∀ a, e ≠ Ev.connect a) (h
     · exact rel_onData c s p r
     · exact Rel.refl _ _
   | appSet x v => exact rel_writeVal c s x v none
+  | appSetWorker x v =>
+    simp only [step, appSetWorker]
+    split <;> exact ⟨rfl, rfl, fun _ => rfl, fun _ => rfl, fun _ h => h, fun _ => Or.inl rfl, fun _ h => h, fun _ _ _ h => h, fun _ _ h => h⟩
+  | handOff =>
+    simp only [step, handOff]
+    split
+    · exact Rel.refl _ _
+    · rename_i x v rest _
+      have h0 : Rel none s { s with handoffs := rest } :=
+        ⟨rfl, rfl, fun _ => rfl, fun _ => rfl, fun _ h => h, fun _ => Or.inl rfl, fun _ h => h, fun _ _ _ h => h, fun _ _ h => h⟩
+      exact Rel.trans h0 (rel_publish c _ x v none)
   | timerFire p =>
     simp only [step]; split
     · exact rel_sendEvents s p
@@ -1030,6 +1049,8 @@ theorem step_silent (c : Cfg) (s : St) (e : Ev) (p : ObjId) (hA : InvA s) (hcl :
       subst this; simp_all
     · intro o ho; cases ho
   | appSet x v => intro o ho; cases ho
+  | appSetWorker x v => intro o ho; cases ho
+  | handOff => intro o ho; cases ho
   | timerFire q =>
     simp only [step]; split
     · rename_i hen
@@ -1462,6 +1483,14 @@ theorem invQ_step (c : Cfg) (s : St) (e : Ev) (h : InvQ c s) : InvQ c (step c s 
       exact invQ_onReq c _ p r (invQ_updObj c s p _ h (qok_same c (s.obj p) _ (h p) rfl rfl rfl (Nat.le_refl _)))
     · exact h
   | appSet x v => exact invQ_writeVal c s x v none h
+  | appSetWorker x v =>
+    simp only [step, appSetWorker]
+    split <;> exact h
+  | handOff =>
+    simp only [step, handOff]
+    split
+    · exact h
+    · exact invQ_publish c _ _ _ none h
   | timerFire p =>
     simp only [step]; split
     · exact invQ_sendEvents c s p h
@@ -1641,6 +1670,8 @@ theorem step_event (c : Cfg) (s : St) (e : Ev) (q : ObjId) (t : Nat) (es : List 
     · exact absurd h (ne _ (noEvent_onReq c _ p r))
     · cases h
   | appSet x v => cases h
+  | appSetWorker x v => cases h
+  | handOff => cases h
   | timerFire p =>
     simp only [step] at h; split at h
     · rename_i hen
